@@ -12,8 +12,9 @@ from props.common import *
 from props.c16_util import *
 
 FINISH = dict(level='proof',
-              technique='Coq theorems about the executable whitelist model (Properties_C16.v: verify rejects the empty key list / count mismatch / zero or out-of-range scalars, signing refuses bad secrets, parser exactness and round trips; the as-coded variant is refuted by an explicit witness) + differential correspondence of the model with the C implementation built from the working tree, with a Python adversarial prover',
-              trusted=TRUSTED_COMMON + ['completeness (sign => verify) is NOT proved in Coq: it is sampled (every honest signature must verify on the implementation) and compared with the model',
+              technique='Coq theorems about the executable whitelist model (Properties_C16.v: verify rejects the empty key list / count mismatch / zero or out-of-range scalars and is characterised exactly, signing refuses bad secrets, parser exactness and round trips, sign => verify under MathFacts; the as-coded variant of verification is refuted for the empty ring by an explicit witness - finding F1) + differential correspondence of the model with the C implementation built from the working tree, with a Python adversarial prover choosing every free scalar',
+              trusted=TRUSTED_COMMON + ['theorems marked [MF] (sign_verifies, sign_verifies_honest) assume MathFacts (group law of the curve, p and n prime) and n < 2^256 as explicit premises, and that no ring key is the point at infinity',
+                                        'the premises of the [MF] theorems cannot be instantiated on a toy curve inside Coq (every hash-derived scalar overflows when n < 2^255); their satisfiability is observed instead: every honest signature of the run verifies on the implementation and on the model',
                                         'Model/Borromean.v (shared ring-signature model) is compared with the C code only through the surjection / whitelist / rangeproof entry points'])
 
 def runners(chk):
